@@ -37,6 +37,9 @@ pub fn linear_space(start: f64, end: f64, n: usize) -> DiscreteDomain {
     for i in 0..n {
         values.push(start + i as f64 * step);
     }
+    // `end - start` overflows for finite bounds further apart than f64::MAX (e.g. -1e308..1e308): the step is then
+    // infinite and the values are NaN / inf. A DiscreteDomain must never hold such values: fail loudly instead.
+    assert!(are_all_finite(&values), "linear_space: the bounds are too far apart");
     DiscreteDomain { values }
 }
 
@@ -74,6 +77,8 @@ impl DiscreteDomain {
         for i in 0..n {
             values.push(start + i as f64 * step);
         }
+        // see `linear_space`: the difference of two finite bounds can overflow
+        assert!(are_all_finite(&values), "DiscreteDomain::linear: the bounds are too far apart");
         DiscreteDomain { values }
     }
 
